@@ -130,6 +130,35 @@ def epoch_traces(ctx, replay, prop):
     return stats
 
 
+def quota_size_cases(ctx, replay, prop):
+    """B2 (DESIGN.md 7/C02): the behaviours of MC_Quota (Quota.tla: adjust, apportion, make-up, steal, delta coding) installed in
+    real populations and run through the real prepare / reproduce / finalize phases; every failure that concerns the TOTAL of the
+    quotas, the number of offspring or the population size is a violation of `prop` (the per-species arithmetic belongs to C09)."""
+    import os
+    import re
+    from pipelines import cat_files, write_lines
+    cases_file = ctx.path("quota_cases_%s.ndjson" % prop)
+    if replay is not None:
+        cases = [v["replay"]["failure"]["case"] for v in replay.get("violations", [])
+                 if v.get("replay", {}).get("kind") == "quota-size" and v["replay"].get("failure", {}).get("case") is not None]
+        if not cases:
+            return
+        write_lines(cases_file, cases)
+    else:
+        cfg = "MC_Quota_thorough.cfg" if ctx.tier == "thorough" else "MC_Quota.cfg"
+        mc = ctx.tlc("MC_Quota", cfg, timeout=3000)
+        spec_must_hold(mc, cfg)
+        cat_files(cases_file, [mc.cases_file])
+    rep_file = ctx.path("quota_report_%s.json" % prop)
+    _, rep, _ = ctx.vh(["replay-quota", "-cases", cases_file, "-out", rep_file], pkg="vh_species", expect_report=rep_file, timeout=3000)
+    ctx.evaluations += rep.get("evaluations", 0)
+    ctx.traces += rep.get("extra", {}).get("behaviours_compared", 0)
+    for f in rep.get("failures", []):
+        if re.search(r"population size|total|offspring|progeny|error", f.get("what", "")):
+            ctx.violation(f["what"], "%s quota-size %s" % (prop, f.get("stage", "")), {"kind": "quota-size", "failure": f})
+    ctx.extra.setdefault("scope", {})["quota_behaviours_replayed"] = rep.get("cases", 0)
+
+
 @pipeline("C02")
 def c02(ctx, replay):
     ctx.rule = ("scenario matrix: 8 fitness families (all-zero, constant, linear, heavy-tailed, single dominant, stagnating, distinct "
@@ -138,14 +167,17 @@ def c02(ctx, replay):
                 "several long-lived mid-sized species with heavy stealing) x "
                 "population sizes 3..30 (thorough ..80) x constructors (NewPopulation from two start genomes, NewPopulationRandom, "
                 "ReadPopulation of an evolved population) x sequential and parallel executor; every epoch is one trace line with the "
-                "whole population, validated by TLC (Trace_Epoch) against the clauses of C02; non-trivial = epochs of populations "
-                "with more than one species")
+                "whole population, validated by TLC (Trace_Epoch) against the clauses of C02; in addition every behaviour of MC_Quota "
+                "(exhaustive small populations through adjust / apportion / make-up / stolen babies / delta coding) is installed in "
+                "a real population and run through the real prepare, reproduce and finalize phases: quotas, offspring and the final "
+                "population must total the population size; non-trivial = epochs of populations with more than one species")
     ctx.assumptions = ["fitness values are finite and non-negative (quantifier)", "organism / species identity is pointer identity"]
     if replay is None:
         mc = ctx.tlc("MC_Epoch", "MC_Epoch_thorough.cfg" if ctx.tier == "thorough" else "MC_Epoch.cfg", timeout=3000)
         spec_must_hold(mc, "MC_Epoch")
     st = epoch_traces(ctx, replay, "C02")
     ctx.nontrivial = st.get("epochs-multi-species", 0)
+    quota_size_cases(ctx, replay, "C02")
 
 
 @pipeline("C10")
@@ -168,7 +200,7 @@ _NOTE = ("Trace validation of seeded scenarios (quick: 56 scenarios x 12-14 epoc
          "epochs, population 3..80), not exhaustive; MC_Epoch explores the turnover protocol exhaustively on the abstract model only. "
          "Trusted: TLC, the projection of the population (harness/cmd/vh_genome/epoch.go).")
 CHECKS = {
- "C02": dict(text="Every recorded epoch of real populations under both executors is validated by TLC against Trace_Epoch: no error, exact size, no survivor of the old generation, organisms/species lists and back pointers agree (by object identity), no empty species, unique species ids that exceed every id seen before when new, unique genome ids, and the ageing rule including the constructed-species exception; MC_Epoch checks the same clauses on the abstract turnover protocol for all small populations.",
+ "C02": dict(text="Every recorded epoch of real populations under both executors is validated by TLC against Trace_Epoch: no error, exact size, no survivor of the old generation, organisms/species lists and back pointers agree (by object identity), no empty species, unique species ids that exceed every id seen before when new, unique genome ids, and the ageing rule including the constructed-species exception; MC_Epoch checks the same clauses on the abstract turnover protocol for all small populations, and every behaviour of MC_Quota (exact model of the apportionment incl. stolen babies and delta coding) is replayed through the real prepare / reproduce / finalize phases for conservation of the total.",
              note=_NOTE, technique=B1, ref="DESIGN.md 7/C02"),
  "C10": dict(text="For every recorded epoch with distinct positive fitness TLC checks that each species of the previous generation whose quota exceeded 5 has an unmodified copy of its fittest organism's genome in the new generation (all genetic fields compared on the projected records); covers the champion-clone and the super-champion (stolen babies, delta coding) branches under both executors.",
              note=_NOTE, technique=B1, ref="DESIGN.md 7/C10"),
